@@ -5,7 +5,7 @@ import numpy as np
 from hypothesis import strategies as st
 
 from .. import balmodel, gen, model
-from ..core import Ctx, Violation, call, check, per_shard, run_given
+from ..core import Ctx, Violation, call, check, per_shard, run_given, given_part, machine_part, run_parts
 from . import c10
 
 PID = "C11"
@@ -369,6 +369,7 @@ def replay(ctx: Ctx, case):
 
 def run(ctx: Ctx):
     q = ctx.tier == "quick"
-    if not run_given(ctx, "sched", cases(pools=not q), check_sched, per_shard(ctx, 280 if q else 9000), batch=20):
-        return
-    run_given(ctx, "cli", cli_cases(), check_cli, per_shard(ctx, 40 if q else 1600), batch=5)
+    parts = []
+    parts.append(given_part(ctx, "sched", cases(pools=not q), check_sched, per_shard(ctx, 280 if q else 9000), batch=20))
+    parts.append(given_part(ctx, "cli", cli_cases(), check_cli, per_shard(ctx, 40 if q else 1600), batch=5))
+    run_parts(ctx, parts)
